@@ -1,7 +1,7 @@
 package c12
 
 // Catalogue of the deviations this package found on the unchanged tree, kept as the conventions
-// say: every deviation is PINNED by (type, operator, field class, failure kind) in pinned_test.go,
+// say: every deviation is PINNED by (type, field class, operator group, failure kind) in pinned_test.go,
 // grouped under a finding id; the enumerating test (TestStructural) re-runs every pinned placement
 // and reports per id whether it is still present (vlib.Known); the generated tests count an input
 // that lands exactly on a pinned placement with vlib.Excluded instead of failing. Once a decoder is
@@ -53,7 +53,7 @@ func opGroup(op string) string {
 	case "hostile:selfdescribed-null":
 		return "selfdescribed-null"
 	case "hostile:empty-map", "hostile:tag-2^64-1":
-		return "missing-field"
+		return "wrong-type-field" // {} in place of the whole value, as the enumerated emptymap at the root
 	}
 	if op == "selfdescribed-null" || op == "selfdescribed-wrap" || op == "missing-field" || op == "null-field" || op == "wrong-type-field" || op == "array-length" || op == "altered-value" {
 		return op // already a group name
@@ -65,12 +65,21 @@ func findingID(op, kind string) string {
 	return "C12-" + opGroup(op) + "-" + pinKind(kind)
 }
 
-// pinString is the key of a pinned deviation: type, operator GROUP and failure kind. The field class
-// is deliberately not part of the key: the nil-dereference family of this package's findings
-// affects every field of the types concerned (several hundred placements), and the repair is per
-// decoder, not per field.
+// pinString is the key of a pinned deviation: type | field class | operator GROUP | failure kind.
+// The field class is part of the key for the groups whose placements TestStructural enumerates
+// completely (null / missing / wrong-type field, self-described tag, array length), so that a new
+// panic at another field of an already pinned type is still reported. The altered-value group (bit
+// flips, copied / zeroed / stepped leaves: drawn, not enumerated) is pinned per type (class "*").
 func pinString(e *entry, op, class, kind string) string {
-	return e.pinKey() + "|" + opGroup(op) + "|" + pinKind(kind)
+	g := opGroup(op)
+	class = strings.TrimSuffix(class, "[]")
+	if g == "altered-value" {
+		class = "*"
+	}
+	if strings.HasPrefix(op, "hostile:") {
+		class = "" // the hostile constants are top-level values
+	}
+	return e.pinKey() + "|" + class + "|" + g + "|" + pinKind(kind)
 }
 
 func pinKind(kind string) string {
@@ -159,6 +168,12 @@ func toleratedRaw(e *entry, kind string, input []byte) bool {
 		case (n.Major == 4 || n.Major == 5 || n.Major == 2) && len(n.Items) == 0 && len(n.Bytes) == 0:
 			has["wrong-type-field"], has["array-length"] = true, true
 		}
+		if n.Major == 4 {
+			has["array-length"] = true
+		}
+		if n.Major <= 3 {
+			has["altered-value"] = true
+		}
 		if n.Major == 5 {
 			has["missing-field"] = true // any map may lack a field
 		}
@@ -166,9 +181,14 @@ func toleratedRaw(e *entry, kind string, input []byte) bool {
 			has["wrong-type-field"] = true
 		}
 	}
-	for g := range has {
-		if isPinned(e.pinKey() + "|" + g + "|" + pinKind(kind)) {
-			vlib.Excluded("C12-" + g + "-" + pinKind(kind))
+	prefix := e.pinKey() + "|"
+	for _, k := range pinned {
+		if !strings.HasPrefix(k, prefix) {
+			continue
+		}
+		parts := strings.Split(k, "|")
+		if len(parts) == 4 && parts[3] == pinKind(kind) && has[parts[2]] {
+			vlib.Excluded("C12-" + parts[2] + "-" + parts[3])
 			return true
 		}
 	}
